@@ -53,6 +53,7 @@ func main() {
 	write("UsagePoolSync.lean", genUsagePoolSync())
 	write("Glue.lean", genGlue())
 	write("ConfigLocks.lean", genConfigLocks())
+	write("FmtCmd.lean", genFmtCmd())
 
 	// typed scan, cached by content hash of the scanned sources
 	h := hashTree(repo)
@@ -2313,4 +2314,122 @@ func genConfigLocks() string {
 		}
 		return rows
 	}(), ", ") + "]\n" + footer
+}
+
+// ---------------------------------------------------------------- `caddy fmt`: what reaches Format and what leaves it
+
+// genFmtCmd: cmd/commandfuncs.go cmdFmt. Tracked variables = every identifier passed to
+// caddyfile.Format or assigned its result (renamed v0, v1, … in order of first appearance, so that a
+// renaming does not change the fact). Listed in source order: every assignment to a tracked variable
+// and every os.WriteFile / fmt.Print* call that mentions one (or calls Format in place). Anything done
+// to the file's bytes between reading and Format, or to the result between Format and the file /
+// stdout, shows up as an additional entry.
+func genFmtCmd() string {
+	_, f := parseFile("cmd/commandfuncs.go")
+	fd := findFunc(f, "", "cmdFmt")
+	var rows []string
+	if fd != nil && fd.Body != nil {
+		isFormat := func(e ast.Expr) bool {
+			ce, ok := e.(*ast.CallExpr)
+			return ok && exprText(ce.Fun) == "caddyfile.Format"
+		}
+		var tracked []string
+		track := func(name string) {
+			if name != "_" && name != "" && !contains(tracked, name) {
+				tracked = append(tracked, name)
+			}
+		}
+		ast.Inspect(fd.Body, func(n ast.Node) bool {
+			switch t := n.(type) {
+			case *ast.CallExpr:
+				if isFormat(t) {
+					for _, a := range t.Args {
+						track(idName(a))
+					}
+				}
+			case *ast.AssignStmt:
+				for i, r := range t.Rhs {
+					if isFormat(r) && i < len(t.Lhs) {
+						track(idName(t.Lhs[i]))
+					}
+				}
+			}
+			return true
+		})
+		isId := func(c byte) bool {
+			return c == '_' || c >= '0' && c <= '9' || c >= 'a' && c <= 'z' || c >= 'A' && c <= 'Z'
+		}
+		// wordAt: w occurs in s at position i as a whole identifier (not a field or package member)
+		wordAt := func(s, w string, i int) bool {
+			return i+len(w) <= len(s) && s[i:i+len(w)] == w &&
+				(i == 0 || !isId(s[i-1]) && s[i-1] != '.') && (i+len(w) == len(s) || !isId(s[i+len(w)]))
+		}
+		word := func(s, w string) bool {
+			for i := range s {
+				if wordAt(s, w, i) {
+					return true
+				}
+			}
+			return false
+		}
+		rename := func(s string) string {
+			for k, w := range tracked {
+				var sb strings.Builder
+				for i := 0; i < len(s); {
+					if wordAt(s, w, i) {
+						sb.WriteString("v" + strconv.Itoa(k))
+						i += len(w)
+						continue
+					}
+					sb.WriteByte(s[i])
+					i++
+				}
+				s = sb.String()
+			}
+			return s
+		}
+		mentions := func(s string) bool {
+			if strings.Contains(s, "caddyfile.Format(") {
+				return true
+			}
+			for _, w := range tracked {
+				if word(s, w) {
+					return true
+				}
+			}
+			return false
+		}
+		ast.Inspect(fd.Body, func(n ast.Node) bool {
+			switch t := n.(type) {
+			case *ast.AssignStmt:
+				hit := false
+				var lhs, rhs []string
+				for _, l := range t.Lhs {
+					lhs = append(lhs, exprText(l))
+					if contains(tracked, idName(l)) {
+						hit = true
+					}
+				}
+				for _, r := range t.Rhs {
+					rhs = append(rhs, exprText(r))
+				}
+				if hit {
+					rows = append(rows, rename(strings.Join(lhs, ",")+" = "+strings.Join(rhs, ",")))
+				}
+			case *ast.CallExpr:
+				fn := exprText(t.Fun)
+				if fn == "os.WriteFile" || strings.HasPrefix(fn, "fmt.Print") || strings.HasPrefix(fn, "fmt.Fprint") {
+					if txt := exprText(t); mentions(txt) {
+						rows = append(rows, rename(txt))
+					}
+				}
+			}
+			return true
+		})
+	}
+	return header +
+		"/-- cmd/commandfuncs.go cmdFmt, in source order: every assignment to a variable that is passed to `caddyfile.Format`\n" +
+		"    or holds its result (those variables renamed v0, v1, … in order of first appearance) and every os.WriteFile /\n" +
+		"    fmt.Print* call that mentions one of them or calls Format in place -/\n" +
+		"def cmdFmtDataFlow : List String := " + leanStrList(rows) + "\n" + footer
 }
